@@ -21,16 +21,7 @@ pub type Sig = [u8; 64];
 /// Node API extensions type.
 pub type NodeExt = p2panda::operation::Extensions;
 
-/// Which extension type a header carries (needed to interpret header bytes).
-#[derive(Clone, Copy, Debug, PartialEq, Eq, Serialize, Deserialize)]
-pub enum ExtKind {
-    /// `()` – no extension element on the wire.
-    Unit,
-    /// [`CustomExt`] – a serde struct (CBOR map).
-    Custom,
-    /// Node API extensions (CBOR array, Basic or Causal variant).
-    Node,
-}
+pub use crate::oracles::ExtKind;
 
 /// A small application-defined extension struct (what a user of p2panda-core would write).
 #[derive(Clone, Debug, PartialEq, Eq, Serialize, Deserialize)]
